@@ -1,0 +1,236 @@
+//! Verification hooks. Compiled only with `--cfg pnordahl_monorail_verif`; nothing in
+//! here is reachable from a normal build. Every function is a thin wrapper that calls the
+//! crate's own code in the same order the production call sites do, or an environment
+//! driven synchronisation point (`point`) that is a no-op unless a controller is attached.
+
+use std::collections::HashSet;
+use std::io::{Read, Write};
+use std::path;
+
+use crate::app::{analyze as app_analyze, log};
+use crate::core::{self, graph, Change};
+
+/// `serde_json::from_str::<Config>` -> `Index::new(all targets)` -> `app::analyze::analyze`,
+/// i.e. what `handle_analyze` does once the change list is known.
+pub fn analyze(
+    config_json: &str,
+    changes: Option<Vec<String>>,
+    show_changes: bool,
+    show_change_targets: bool,
+    show_target_groups: bool,
+    work_path: &path::Path,
+) -> Result<String, String> {
+    let cfg: core::Config = serde_json::from_str(config_json).map_err(|e| e.to_string())?;
+    let mut index = core::Index::new(&cfg, &cfg.get_target_path_set(), work_path)
+        .map_err(|e| e.to_string())?;
+    let input =
+        app_analyze::AnalyzeInput::new(show_changes, show_change_targets, show_target_groups);
+    let changes = changes.map(|v| v.into_iter().map(|name| Change { name }).collect());
+    let out = app_analyze::analyze(&input, &mut index, changes).map_err(|e| e.to_string())?;
+    serde_json::to_string(&out).map_err(|e| e.to_string())
+}
+
+/// Builds a `Dag` the way `Index::new` does (labels, then edges, then visibility per root)
+/// and returns `get_labeled_groups` as node indices.
+pub fn dag_groups(
+    n: usize,
+    adj: &[Vec<usize>],
+    roots: &[usize],
+) -> Result<Vec<Vec<usize>>, String> {
+    let mut dag = graph::Dag::new(n);
+    for i in 0..n {
+        dag.set_label(&format!("n{}", i), i)
+            .map_err(|e| e.to_string())?;
+    }
+    for (i, nodes) in adj.iter().enumerate() {
+        let mut nodes = nodes.clone();
+        nodes.sort();
+        nodes.dedup();
+        dag.set(i, nodes);
+    }
+    for r in roots {
+        dag.set_subtree_visibility(*r, true)
+            .map_err(|e| e.to_string())?;
+    }
+    let groups = dag.get_labeled_groups().map_err(|e| e.to_string())?;
+    groups
+        .into_iter()
+        .map(|g| {
+            g.into_iter()
+                .map(|l| dag.get_node_by_label(&l).map_err(|e| e.to_string()))
+                .collect::<Result<Vec<usize>, String>>()
+        })
+        .collect()
+}
+
+/// `Index::new(cfg, visible)` followed by `dag.get_labeled_groups()`, as `target show -g`
+/// and `run -t .. --deps` do.
+pub fn index_groups(
+    config_json: &str,
+    visible: &[String],
+    work_path: &path::Path,
+) -> Result<Vec<Vec<String>>, String> {
+    let cfg: core::Config = serde_json::from_str(config_json).map_err(|e| e.to_string())?;
+    let vis: HashSet<&String> = visible.iter().collect();
+    let mut index = core::Index::new(&cfg, &vis, work_path).map_err(|e| e.to_string())?;
+    index.dag.get_labeled_groups().map_err(|e| e.to_string())
+}
+
+/// The dependency edges `Index::new` puts into the graph, as (dependent, dependency) labels,
+/// read back through `render_dotfile` so no private field is touched.
+pub fn index_edges(
+    config_json: &str,
+    work_path: &path::Path,
+    scratch_file: &path::Path,
+) -> Result<Vec<(String, String)>, String> {
+    let cfg: core::Config = serde_json::from_str(config_json).map_err(|e| e.to_string())?;
+    let vis: HashSet<&String> = HashSet::new();
+    let index = core::Index::new(&cfg, &vis, work_path).map_err(|e| e.to_string())?;
+    index
+        .dag
+        .render_dotfile(scratch_file)
+        .map_err(|e| e.to_string())?;
+    let text = std::fs::read_to_string(scratch_file).map_err(|e| e.to_string())?;
+    let mut out = vec![];
+    for line in text.lines() {
+        if let Some((a, b)) = line.trim_end_matches(';').split_once(" -> ") {
+            let (a, b): (usize, usize) = (
+                a.trim().parse().map_err(|_| format!("bad edge line {}", line))?,
+                b.trim().parse().map_err(|_| format!("bad edge line {}", line))?,
+            );
+            out.push((
+                index
+                    .dag
+                    .get_label_by_node(&a)
+                    .map_err(|e| e.to_string())?
+                    .to_owned(),
+                index
+                    .dag
+                    .get_label_by_node(&b)
+                    .map_err(|e| e.to_string())?
+                    .to_owned(),
+            ));
+        }
+    }
+    Ok(out)
+}
+
+/// `Config::new` + `Config::check` exactly as `cli::handle` calls them; returns the config
+/// re-serialised (with runtime defaults filled, like `config show`).
+pub fn config_load_check(
+    config_path: &path::Path,
+    work_path: &path::Path,
+) -> Result<String, String> {
+    let mut config = core::Config::new(config_path).map_err(|e| e.to_string())?;
+    config
+        .check(config_path, work_path)
+        .map_err(|e| e.to_string())?;
+    config.fill();
+    serde_json::to_string(&config).map_err(|e| e.to_string())
+}
+
+/// One target group's log capture: registers every path with a 2-thread `Compressor`, runs it on
+/// its own thread, spawns `process_reader` for every reader into a `JoinSet`, drains it, sends the
+/// shutdowns and joins the compressor - the calls `process_plan` makes for one group, in that
+/// order. `readers[i]` is the (stdout, stderr) pair of member i, `paths[i]` its two log files.
+pub async fn capture<R>(
+    readers: Vec<(R, R)>,
+    paths: Vec<(path::PathBuf, path::PathBuf)>,
+) -> Result<(), String>
+where
+    R: tokio::io::AsyncRead + Unpin + Send + 'static,
+{
+    let mut compressor = log::Compressor::new(
+        2,
+        std::sync::Arc::new(std::sync::atomic::AtomicBool::new(false)),
+    );
+    let mut clients = Vec::new();
+    for (so, se) in paths.iter() {
+        let a = compressor.register(so).map_err(|e| e.to_string())?;
+        let b = compressor.register(se).map_err(|e| e.to_string())?;
+        clients.push((a, b));
+    }
+    let handle = std::thread::spawn(move || compressor.run());
+    let token = std::sync::Arc::new(tokio_util::sync::CancellationToken::new());
+    let mut js = tokio::task::JoinSet::new();
+    for (id, (so, se)) in readers.into_iter().enumerate() {
+        let (c0, c1) = (clients[id].0.clone(), clients[id].1.clone());
+        let (t0, t1) = (token.clone(), token.clone());
+        let target = format!("t{}", id);
+        js.spawn(async move {
+            let h0 = log::get_header(&c0.file_name, &target, "cmd", true);
+            let h1 = log::get_header(&c1.file_name, &target, "cmd", true);
+            let f0 = log::process_reader(tokio::io::BufReader::new(so), c0, h0, None, t0);
+            let f1 = log::process_reader(tokio::io::BufReader::new(se), c1, h1, None, t1);
+            tokio::try_join!(f0, f1).map(|_| ()).map_err(|e| e.to_string())
+        });
+    }
+    let mut first_err = None;
+    while let Some(res) = js.join_next().await {
+        match res {
+            Ok(Ok(())) => {}
+            Ok(Err(e)) => first_err = first_err.or(Some(e)),
+            Err(e) => first_err = first_err.or(Some(e.to_string())),
+        }
+    }
+    let mut shutdown_err = None;
+    for client in clients {
+        if let Err(e) = client.0.shutdown().await {
+            shutdown_err = shutdown_err.or(Some(e.to_string()));
+        }
+        if let Err(e) = client.1.shutdown().await {
+            shutdown_err = shutdown_err.or(Some(e.to_string()));
+        }
+    }
+    let joined = handle
+        .join()
+        .map_err(|_| "compressor thread panicked".to_string())?;
+    joined.map_err(|e| e.to_string())?;
+    // a failed shutdown send is reported separately (prefix) so the caller can tell it from a
+    // reader failure; production code turns either into a fatal error
+    if let Some(e) = first_err {
+        return Err(format!("reader: {}", e));
+    }
+    if let Some(e) = shutdown_err {
+        return Err(format!("shutdown: {}", e));
+    }
+    Ok(())
+}
+
+static POINT_SEQ: std::sync::atomic::AtomicUsize = std::sync::atomic::AtomicUsize::new(0);
+
+/// Synchronisation / crash point. No-op unless `MONORAIL_VERIF_CTL` names a Unix socket and
+/// `name` matches one of the comma separated prefixes in `MONORAIL_VERIF_POINTS`. Otherwise:
+/// connect, send one JSON line, block for one byte: `c` continue, `x` abort the process.
+pub fn point(name: &str) {
+    let ctl = match std::env::var("MONORAIL_VERIF_CTL") {
+        Ok(v) if !v.is_empty() => v,
+        _ => return,
+    };
+    let wanted = std::env::var("MONORAIL_VERIF_POINTS").unwrap_or_default();
+    if !wanted
+        .split(',')
+        .any(|p| !p.is_empty() && (p == "*" || name.starts_with(p)))
+    {
+        return;
+    }
+    let seq = POINT_SEQ.fetch_add(1, std::sync::atomic::Ordering::SeqCst);
+    let mut stream = match std::os::unix::net::UnixStream::connect(&ctl) {
+        Ok(s) => s,
+        Err(_) => return,
+    };
+    let msg = format!(
+        "{{\"kind\":\"point\",\"pid\":{},\"name\":{:?},\"seq\":{}}}\n",
+        std::process::id(),
+        name,
+        seq
+    );
+    if stream.write_all(msg.as_bytes()).is_err() {
+        return;
+    }
+    let mut b = [0u8; 1];
+    match stream.read(&mut b) {
+        Ok(1) if b[0] == b'x' => std::process::abort(),
+        _ => {}
+    }
+}
